@@ -22,7 +22,7 @@ LEVEL_NOTE = ("Determinism is a property of the runtime: half (B) is sampling, n
               "recycled LIFO and keep garbage); a replay with --only starts from a different heap history than the full run, so an "
               "address-dependent failure may need the full stream to reproduce. Nudged orthogonal display routes and VPSC positions come "
               "out of a floating division and are required to translate only up to 1e-9*scale (exactness is counted); raw routes must "
-              "translate exactly. Symmetries compare COSTS only (the route may differ among equal-cost alternatives). For ARBITRARY direction restrictions (tag route-symmetry-dirs-any) the unchanged library is not symmetric in about 7% of the generated scenes (one of two pins at the same position finds no path, which one depends on the frame; U-turns at a restricted free end are found in one frame and not in another); these are counted as STAT finding.dirs-any.* and NOT alarmed; only the documented configurations (outward-looking end on the outer edge of the scene, single pin on the scene-boundary side) are enforced.")
+              "translate exactly. Symmetries compare COSTS only (the route may differ among equal-cost alternatives). For ARBITRARY direction restrictions (tag route-symmetry-dirs-any) the unchanged library is not symmetric in about 7% of the generated scenes (one of two pins at the same position finds no path, which one depends on the frame; U-turns at a restricted free end are found in one frame and not in another); these are reported as SPECFAIL `route-symmetry[dirs-any] <kind>.<pin|free-end>: ...` (known finding C20-restricted-ends-asymmetric) and counted as STAT finding.dirs-any.*; the documented configurations (outward-looking end on the outer edge of the scene, single pin on the scene-boundary side) have their own tag route-symmetry-dirs and are quiet on the unchanged tree.")
 TECHNIQUE = "Lean 4 invariance/uniqueness theorems (logic half) + run-twice / frame-change differential harness decided by an exact Lean driver (runtime half)"
 DESIGN_REF = "DESIGN.md section 6 C20"
 RULE = ("12 generator slots per round (250 rounds quick, 1200 thorough): route-twice polyline, route-twice orthogonal, vpsc-twice, layout-twice, "
